@@ -65,8 +65,10 @@ struct Poison { uintptr_t lo, hi; } PZ[MAXPOISON]; volatile int NP = 0;
 struct Region { uintptr_t lo, hi; } RG[8]; volatile int NR = 0;     // plain accesses inside are scheduling points (mv_plain_region)
 __thread Th* self = nullptr;
 
-void futex_wait(volatile uint32_t* a, uint32_t v) { syscall(SYS_futex, a, FUTEX_WAIT_PRIVATE, v, nullptr, nullptr, 0); }
-void futex_wake(volatile uint32_t* a) { syscall(SYS_futex, a, FUTEX_WAKE_PRIVATE, 1, nullptr, nullptr, 0); }
+// the hooks run in the middle of the code under test (e.g. between `errno = ETIMEDOUT` and the unlock that follows it): they must not
+// leave a trace in errno (a futex wait that finds the value changed returns EAGAIN, depending on real timing)
+void futex_wait(volatile uint32_t* a, uint32_t v) { int e = errno; syscall(SYS_futex, a, FUTEX_WAIT_PRIVATE, v, nullptr, nullptr, 0); errno = e; }
+void futex_wake(volatile uint32_t* a) { int e = errno; syscall(SYS_futex, a, FUTEX_WAKE_PRIVATE, 1, nullptr, nullptr, 0); errno = e; }
 
 void sb_drain(Th* t) {
     if (!t->sb.on) return;
